@@ -108,3 +108,7 @@ Definition strobe_digest (k : bytes) (ads : list bytes) (label : bytes) : bytes 
 Definition strobe_hash (input : bytes) (label : bytes) : bytes :=
   snd (rng_fill (key (new label) input) 64).
 End Strobe.
+
+
+(* conversion hints (kernel and tactics): unfold the STROBE operations last *)
+Strategy 100 [strobe_digest strobe_hash new key ad meta_ad prf send_enc recv_enc send_mac recv_mac rng_fill rng_next_u64 begin_op].
